@@ -128,30 +128,45 @@ def _table(ctx, b: Func, st: ast.Assign) -> Union[Table, str]:
             e, conj = e.func.value, not conj
         else:
             break
-    if not isinstance(e, ast.Name):
-        return "stored value `%s` is not a (transposed / conjugated) stacked list" % unparse(st.value)
+    # the stacking step may be part of the stored expression or a (re)binding of a local: <sparse.>vstack(L).reshape(rows, size) / np.array(L)
+    def unstack(x):
+        """the list name L behind a stacking expression, or None"""
+        if isinstance(x, ast.Call) and isinstance(x.func, ast.Attribute) and x.func.attr == "reshape" and len(x.args) in (1, 2) and not x.keywords:
+            x = x.func.value
+        if isinstance(x, ast.Call) and (dotted(x.func) or "").split(".")[-1] in ("vstack", "array") and len(x.args) == 1 and not x.keywords \
+                and isinstance(x.args[0], ast.Name):
+            return x.args[0].id
+        return None
+    hops = 0
+    while not isinstance(e, ast.Name):
+        inner = unstack(e)
+        if inner is None or hops > 3:
+            return "stored value `%s` is not a (transposed / conjugated) stacked list" % unparse(st.value)
+        e = ast.Name(id=inner, ctx=ast.Load())
+        hops += 1
+        break
     lst = e.id
-    # re-bindings of the list name before the store: np.array(L) / sparse.vstack(L).reshape(rows, size)
-    for n in own_nodes(b.node):
-        if isinstance(n, ast.Assign) and len(n.targets) == 1 and isinstance(n.targets[0], ast.Name) and n.targets[0].id == lst:
-            t = unparse(n.value)
-            if t == "[]":
-                continue
-            if t == "np.array(%s)" % lst:
-                continue
-            if t.startswith("sparse.vstack(%s).reshape(" % lst) and isinstance(n.value, ast.Call) and len(n.value.args) == 2 and not n.value.keywords:
-                continue
-            return "%s is re-bound by `%s`" % (lst, t[:60])
+    # re-bindings of the name: follow them back to the list the rows are appended to
+    for _ in range(4):
+        binds = [n for n in own_nodes(b.node) if isinstance(n, ast.Assign) and len(n.targets) == 1 and isinstance(n.targets[0], ast.Name)
+                 and n.targets[0].id == lst and unparse(n.value) != "[]"]
+        if not binds:
+            break
+        if len(binds) > 1:
+            return "%s is re-bound more than once" % lst
+        src = unstack(binds[0].value)
+        if src is None:
+            return "%s is re-bound by `%s`" % (lst, unparse(binds[0].value)[:60])
+        if src == lst:
+            break
+        lst = src
     apps = [n for n in own_nodes(b.node) if isinstance(n, ast.Call) and isinstance(n.func, ast.Attribute) and n.func.attr == "append"
             and unparse(n.func.value) == lst and len(n.args) == 1]
     if len(apps) != 1:
         return "expected one %s.append(...), found %d" % (lst, len(apps))
     app = apps[0]
     loop = None
-    guard = None
     for p in parents(app):
-        if isinstance(p, ast.If) and guard is None:
-            guard = p
         if isinstance(p, ast.For):
             loop = p
             break
@@ -169,16 +184,25 @@ def _table(ctx, b: Func, st: ast.Assign) -> Union[Table, str]:
     else:
         return "loop `for %s in %s` is outside the recognised forms" % (unparse(loop.target), unparse(it)[:60])
     off = 0
-    if guard is not None:
-        from .astutil import conjuncts
-        in_body = any(app is x for s in guard.body for x in ast.walk(s))
-        c = conjuncts(guard.test, in_body)
-        atoms = {(t, pol) for t, pol, _ in c} if c is not None else None
+    from .astutil import guards_of, stmt_of
+    gs = guards_of(stmt_of(app), stop=loop)
+    # conditions from the loop body's own guard clauses (`if ...: continue`) are found when walking up to the loop
+    from .astutil import _guard_clauses
+    top = stmt_of(app)
+    for p in parents(app):
+        if p is loop:
+            break
+        top = p if isinstance(p, ast.stmt) else top
+    extra = []
+    _guard_clauses(loop.body, top, extra)
+    gs = gs + [g for g in extra if g not in gs]
+    if gs:
+        atoms = {(t, pol) for t, pol, _ in gs}
         want = {("%s == 0" % r, False) for r in rows} if len(rows) == 2 else None
-        if atoms is not None and want is not None and atoms == want:
+        if want is not None and atoms == want:
             off = 1
         else:
-            return "append is guarded by `%s`" % unparse(guard.test)
+            return "append is guarded by `%s`" % " and ".join(("" if pol else "not ") + t for t, pol, _ in gs)
     defs = {}
     for s in ast.walk(loop):
         if isinstance(s, ast.Assign) and len(s.targets) == 1 and isinstance(s.targets[0], ast.Name) and s.targets[0].id not in rows:
